@@ -197,6 +197,37 @@ def t07_map(run, fx):
                 run.fail(rule, "idmap:%s:%s" % (ty, k), "%s::%s reads %s; expected %s" % (ty, k, sorted(fields), sorted(want)), "%s:%s" % (b.file, b.line))
 
 
+def t07_comp(run, fx):
+    rule = "T07-COMP"
+    run.rule(rule, "GlyfRecord::is_composite classifies by the sign of numberOfContours (negative = composite, per the glyf specification), the same "
+                   "test the glyph parser dispatches on: a composite can never be copied as if it were a simple glyph")
+    b = fx.body("tables::glyf::GlyfRecord::<'a>::is_composite")
+    if b is None:
+        return run.anchor_missing(rule, "GlyfRecord::is_composite")
+    ret = sym.strip(sym.Prov(b).local(0))
+    ok = ret[0] == "bin" and ret[1] == "Lt" and sym.strip(ret[3])[0] == "c" and sym.strip(ret[3])[1] == 0 and \
+        any(x[0] == "call" and (x[1] or "").endswith("number_of_contours") for x in sym.walk(ret[2]))
+    if ok:
+        run.ok(rule, "is_composite = number_of_contours() < 0")
+    else:
+        run.fail(rule, "composite-predicate", "is_composite is not `number_of_contours() < 0` (%s): composites with another negative count are treated as simple glyphs" % sym.show(ret)[:70], "%s:%s" % (b.file, b.line))
+    g = fx.body("<tables::glyf::Glyph<'b> as binary::read::ReadBinary>::read")
+    if g is None:
+        return run.anchor_missing(rule, "Glyph::read")
+    prov = sym.Prov(g)
+    found = False
+    for tb, fb, op, x, y, sw in __import__("guards").branch_conditions(g, prov):
+        x1, y1 = sym.strip(x), sym.strip(y)
+        if y1[0] == "c" and y1[1] == 0 and op in ("Ge", "Lt") and any(z[0] == "call" and (z[1] or "").endswith("read_i16be") for z in sym.walk(x1)):
+            found = True
+    if found:
+        run.ok(rule, "Glyph::read dispatches on numberOfContours >= 0 / < 0")
+    else:
+        run.fail(rule, "composite-dispatch", "Glyph::read does not dispatch on the sign of numberOfContours", "%s:%s" % (g.file, g.line))
+
+
 def check(run, fx, tier, floors=True):
     t07_id(run, fx, floors)
     t07_map(run, fx)
+    if floors or fx.body("tables::glyf::GlyfRecord::<'a>::is_composite") is not None:
+        t07_comp(run, fx)
